@@ -146,6 +146,7 @@ static Verdict run_c11(const Case &c)
     {
       Verdict fl = Verdict::fail(m + " [" + labels[i] + ", " + std::to_string(f.size()) + "-byte input, T=" + std::to_string(T) + "]");
       fl.nontrivial = true;
+      fl.slow = r.detail.find("again within 180 s") != std::string::npos; // judged by a watchdog: minutes per evaluation, do not shrink
       fl.classes = v.classes;
       Case rc;
       rc.set("kind", "file");
@@ -155,6 +156,7 @@ static Verdict run_c11(const Case &c)
       rc.setb("key", key);
       rc.seti("T", T);
       rc.seti("chunk", chunk);
+      rc.seti("refill", c.geti("refill", 0)); // the hash buffer's refill size is part of the case
       fl.replay_text = rc.text();
       return fl;
     }
